@@ -577,7 +577,25 @@ func evalSeq(d seqDesc) ev.Result {
 				continue
 			}
 			last := s.recorded[len(s.recorded)-1].typ
-			if _, bad := post(255, s.token, peer.ErrorBody(last), s, false, fmt.Sprintf("step %d clienterr(slot %d)", i, slot)); bad != nil {
+			// whatever the error message looks like, it ends the session
+			eb := peer.ErrorBody(last)
+			switch st.K {
+			case 1:
+				eb = peer.ErrorBody(99) // a previous-message type no protocol has
+			case 2:
+				if last >= 60 { // a type of another protocol
+					eb = peer.ErrorBody(11)
+				} else {
+					eb = peer.ErrorBody(61)
+				}
+			case 3:
+				eb = eb[:3] // truncated
+			case 4:
+				eb = nil
+			case 5:
+				eb = []byte{0xff, 0x00, 0x17}
+			}
+			if _, bad := post(255, s.token, eb, s, false, fmt.Sprintf("step %d clienterr(slot %d, variant %d)", i, slot, st.K)); bad != nil {
 				return *bad
 			}
 			s.live = false
@@ -622,11 +640,18 @@ func TestC08(t *testing.T) {
 	scripts := map[string][]step{
 		"all-honest": {{Act: "start", Slot: 0, Proto: pDI}, {Act: "next", Slot: 0}, {Act: "start", Slot: 1, Proto: pTO0}, {Act: "next", Slot: 1}, {Act: "start", Slot: 2, Proto: pTO1}, {Act: "next", Slot: 2},
 			{Act: "start", Slot: 3, Proto: pTO2}, {Act: "next", Slot: 3}, {Act: "next", Slot: 3, K: 1}, {Act: "next", Slot: 3}, {Act: "next", Slot: 3}, {Act: "next", Slot: 3}, {Act: "next", Slot: 3}, {Act: "next", Slot: 3}},
-		"di-client-error-then-sethmac": {{Act: "start", Slot: 0, Proto: pDI}, {Act: "clienterr", Slot: 0}, {Act: "next", Slot: 0}},
-		"to2-skip-66":                  {{Act: "start", Slot: 0, Proto: pTO2}, {Act: "next", Slot: 0}, {Act: "next", Slot: 0, K: 1}, {Act: "skip", Slot: 0, K: 0}, {Act: "next", Slot: 0}},
-		"to2-done-before-isdone":       {{Act: "start", Slot: 0, Proto: pTO2}, {Act: "next", Slot: 0, K: 1}, {Act: "next", Slot: 0}, {Act: "skip", Slot: 0}},
-		"to2-done-without-prove":       {{Act: "start", Slot: 0, Proto: pTO2}, {Act: "skip", Slot: 0, K: 2}},
-		"finished-token-reuse":         {{Act: "start", Slot: 0, Proto: pTO0}, {Act: "next", Slot: 0}, {Act: "next", Slot: 0}, {Act: "replay", Slot: 0}},
+		"di-client-error-then-sethmac":  {{Act: "start", Slot: 0, Proto: pDI}, {Act: "clienterr", Slot: 0}, {Act: "next", Slot: 0}},
+		"di-client-error-unknown-prev":  {{Act: "start", Slot: 0, Proto: pDI}, {Act: "clienterr", Slot: 0, K: 1}, {Act: "next", Slot: 0}},
+		"di-client-error-foreign-prev":  {{Act: "start", Slot: 0, Proto: pDI}, {Act: "clienterr", Slot: 0, K: 2}, {Act: "next", Slot: 0}},
+		"di-client-error-truncated":     {{Act: "start", Slot: 0, Proto: pDI}, {Act: "clienterr", Slot: 0, K: 3}, {Act: "next", Slot: 0}},
+		"to0-client-error-empty":        {{Act: "start", Slot: 0, Proto: pTO0}, {Act: "clienterr", Slot: 0, K: 4}, {Act: "next", Slot: 0}},
+		"to0-client-error-garbage":      {{Act: "start", Slot: 0, Proto: pTO0}, {Act: "clienterr", Slot: 0, K: 5}, {Act: "next", Slot: 0}},
+		"to2-client-error-unknown-prev": {{Act: "start", Slot: 0, Proto: pTO2}, {Act: "next", Slot: 0}, {Act: "clienterr", Slot: 0, K: 1}, {Act: "next", Slot: 0}},
+		"to2-client-error-truncated":    {{Act: "start", Slot: 0, Proto: pTO2}, {Act: "next", Slot: 0}, {Act: "clienterr", Slot: 0, K: 3}, {Act: "next", Slot: 0}},
+		"to2-skip-66":                   {{Act: "start", Slot: 0, Proto: pTO2}, {Act: "next", Slot: 0}, {Act: "next", Slot: 0, K: 1}, {Act: "skip", Slot: 0, K: 0}, {Act: "next", Slot: 0}},
+		"to2-done-before-isdone":        {{Act: "start", Slot: 0, Proto: pTO2}, {Act: "next", Slot: 0, K: 1}, {Act: "next", Slot: 0}, {Act: "skip", Slot: 0}},
+		"to2-done-without-prove":        {{Act: "start", Slot: 0, Proto: pTO2}, {Act: "skip", Slot: 0, K: 2}},
+		"finished-token-reuse":          {{Act: "start", Slot: 0, Proto: pTO0}, {Act: "next", Slot: 0}, {Act: "next", Slot: 0}, {Act: "replay", Slot: 0}},
 		"damaged-tokens": {{Act: "start", Slot: 0, Proto: pTO2}, {Act: "token", Slot: 0, Tok: "short"}, {Act: "token", Slot: 0, Tok: "flip-mac", K: 1}, {Act: "token", Slot: 0, Tok: "nonb64"}, {Act: "token", Slot: 0, Tok: "trunc"},
 			{Act: "token", Slot: 0, Tok: "none"}, {Act: "next", Slot: 0, K: 1}, {Act: "token", Slot: 0, Tok: "flip-id"}, {Act: "next", Slot: 0}},
 	}
@@ -655,7 +680,7 @@ func TestC08(t *testing.T) {
 		return res
 	})
 
-	r.SetRule("sequences", "rapid state machine over one server (all four responders behind the real HTTP handler; in-memory backend, 1/24 real SQLite) with two provisioned devices and four session slots; 4..24 steps drawn from: start a protocol (10/20/30/60, optionally carrying some token), send the honest next message of a slot's session (12/22/32/62/64/66/68/70 built by manual peers from the CDDL), replay a recorded request, skip ahead in TO2 (66/68/70 before ProveDevice, 68/70 without 66, Done before the owner reported IsDone), send the honest next message under another token (none, other protocol's, another session's, id/MAC bit flip, truncated, 4 characters, non-base64, random), send a client error 255. Reference model per token: protocol, phase, liveness (dead after the final message, after any error response, after a client error). Oracle after every step: journal delta contains AddVoucher/SetRVBlob/module calls/ReplaceVoucher only if the model says this is the legitimate 12/22/68/70 of a live session; a request under a missing, forged, foreign or dead token is never answered with the success type; legitimate messages succeed; no panic. Non-trivial: ≥1 illegitimate request after some progress; distinct by sequence.")
+	r.SetRule("sequences", "rapid state machine over one server (all four responders behind the real HTTP handler; in-memory backend, 1/24 real SQLite) with two provisioned devices and four session slots; 4..24 steps drawn from: start a protocol (10/20/30/60, optionally carrying some token), send the honest next message of a slot's session (12/22/32/62/64/66/68/70 built by manual peers from the CDDL), replay a recorded request, skip ahead in TO2 (66/68/70 before ProveDevice, 68/70 without 66, Done before the owner reported IsDone), send the honest next message under another token (none, other protocol's, another session's, id/MAC bit flip, truncated, 4 characters, non-base64, random), send a client error 255 (well-formed, naming an unknown or foreign previous message type, truncated, empty, or garbage). Reference model per token: protocol, phase, liveness (dead after the final message, after any error response, after a client error). Oracle after every step: journal delta contains AddVoucher/SetRVBlob/module calls/ReplaceVoucher only if the model says this is the legitimate 12/22/68/70 of a live session; a request under a missing, forged, foreign or dead token is never answered with the success type; legitimate messages succeed; no panic. Non-trivial: ≥1 illegitimate request after some progress; distinct by sequence.")
 	known = func(key string) bool { return r.HitKnown("sequences", key) }
 	ev.Rapid(r, "sequences", ev.N{Quick: 5000, Thorough: 200000}, genSeq, evalSeq)
 	ev.CheckWitness(r, "sequences", evalSeq)
